@@ -62,23 +62,23 @@ CHECKS = {
          "Narrow claim. Counting attempts against the configuration is value-level and NOT decided. Decided: the structural necessary condition of 'strictly one after another' — each attempt's subscription is awaited before the loop continues (or the next source is subscribed from the previous one's terminal slot), attempts forward their values, Retry tests the context before each attempt and during the delay.",
          "Trusted: Wait returns only when the subscription is closed (C06).",
          "DESIGN.md section 4, C15"),
- "C07": ("static effect/placement analysis: emission context of every user-function call (USER-FN-CONTEXT) and go statement (GO-RECOVER) from the subscribe-closure model; structural checks of the core recover points (CORE-RECOVER); error-result discipline (ERR-RESULT-USED); Unwrap table (UNWRAP); CFG lock pairing on all functions (LOCK-PAIRING)",
+ "C07": ("static effect/placement analysis: emission context of every user-function call (USER-FN-CONTEXT) and go statement (GO-RECOVER) from the subscribe-closure model; structural checks of the core recover points (CORE-RECOVER); error-result discipline (ERR-RESULT-USED); Unwrap table (UNWRAP); CFG lock pairing on all functions (LOCK-PAIRING); unlocks that a panicking callee can skip (PANIC-SAFE-UNLOCK); which error slot ends a failed delivery (ERROR-KIND); no TryLock in terminal methods (LOCK-REGION)",
          "Static discipline check: decides, for every operator, in which kind of place each user-supplied function runs and whether a panic there becomes an Error notification (subscribe body, next slot, guarded goroutine) or can only reach the hook / crash the process (error/complete slots, timer callbacks, bare goroutines); that the recover points of observableImpl/observerImpl exist and wrap the right calls; that returned errors are emitted and do not fall through; that no function exits holding a lock. Five genuine by-design violations are recorded as known findings. Does not inject faults.",
          "Trusted: lo.TryCatchWithErrorValue recovers; the notion of 'user-supplied' = function parameters of exported API functions (parameters of unexported helpers that only receive library literals are excluded, decided from the call sites).",
          "DESIGN.md section 4, C07"),
- "C03": ("static ownership analysis: per subscribe closure a resource graph (subscribe-site results, composite subscriptions, timers, goroutines and their stop channels) checked for must-release by the teardown chain (RELEASE); CFG/lock-set checks of the subscriber's self-unsubscribe, of the teardown registration and of subscriptionImpl's finalizer loop",
+ "C03": ("static ownership analysis: per subscribe closure a resource graph (subscribe-site results, composite subscriptions, timers, goroutines and their stop channels) checked for must-release by the teardown chain (RELEASE); path-sensitive (a release under a condition inside the teardown is not a must-release); TEARDOWN-ALL-RUN (no release placed after an Unsubscribe that can panic in the same teardown, unless deferred); CFG/lock-set checks of the subscriber's self-unsubscribe, of the teardown registration and of subscriptionImpl's finalizer loop",
          "Static must-release check over all ~176 acquisitions of package ro: each upstream subscription, timer and looping goroutine reaches a node that the operator's teardown unsubscribes/stops/closes (or is awaited), so an operator returning nil instead of its upstream Unsubscribe, a ticker that is not stopped or a goroutine without a stop channel is reported for whichever operator it lands in. Plus structural checks of the three core mechanisms (self-unsubscribe after terminals outside the producer lock; teardown added to the subscriber; finalizers run once, recovered, outside the mutex, re-panic after the loop). Does not explore races.",
          "Trusted: sync.Mutex semantics; upstream observables release their own resources (induction); two one-symbol exemptions (Share's connection-owned upstream subscription, Delay's pending timers) listed in rules/c03.go.",
          "DESIGN.md section 4, C03"),
- "C02": ("static analysis: emission-context concurrency relation over the model of every subscribe closure (MULTI-PRODUCER=>SAFE), decision-table evaluation of subscriber reuse (NO-DOWNGRADE), constructor/mode tables (MODE-TABLE), CFG lock-set data-flow on subscriberImpl and the subjects (LOCK-REGION, SUBJECT-BROADCAST-LOCKED)",
+ "C02": ("static analysis: emission-context concurrency relation over the model of every subscribe closure (MULTI-PRODUCER=>SAFE), decision-table evaluation of subscriber reuse (NO-DOWNGRADE), constructor/mode tables incl. the literal plumbing of mode, lock and backpressure inside newSubscriberImpl (MODE-TABLE), CFG lock-set data-flow on subscriberImpl and the subjects (LOCK-REGION, SUBJECT-BROADCAST-LOCKED)",
          "Static discipline check of the premises of the serialisation argument: deliveries only inside the producer lock region; the lock is real exactly in safe modes; every operator whose destination can be reached from two possibly-concurrent contexts (derived from the code, not from a name list: 23 operators today) uses a safe constructor; a subscriber is never replaced by a weaker one; subjects broadcast under their mutex. It decides these for every operator on every run; it does not explore schedules.",
          "Trusted: sync.Mutex/atomic semantics; the hypothesis that each individual source is sequential; the ordering facts S1-S4 of DESIGN.md section 2; the model walker (unknown constructs fail closed).",
          "DESIGN.md section 4, C02"),
- "C09": ("static def-use classification of every context operand (CTX-PROVENANCE: origins of the ctx argument of every upstream subscription and notification, through tuples, containers, atomic.Value, struct fields, closure/helper parameters) plus a who-may-call rule for context.Background()/TODO() (NO-FRESH-CONTEXT)",
+ "C09": ("static def-use classification of every context operand (CTX-PROVENANCE: origins of the ctx argument of every upstream subscription and notification, through tuples, containers, atomic.Value, struct fields, closure/helper parameters) plus a who-may-call rule for context.Background()/TODO() (NO-FRESH-CONTEXT) and CTX-PAIRING (a queued notification is emitted with the context stored with it: value and context come from the same container element / same receive)",
          "Static provenance check: for each of ~800 context sinks in package ro (subscribe sites and notifications of every operator, subjects, subscriber, connectable) the operand is traced to its origins; only the subscriber context, the slot context, user-callback results and context.With* of those are accepted, zero values must be guarded by a dominating assignment or a companion flag, unknown forms fail closed. Decides that no operator drops, replaces or nils the context on any path; does not decide which of several allowed contexts is the intended one.",
          "Trusted: go/types; the induction hypothesis that the upstream source honours the property; four hand-argued zero-value exemptions listed in rules/c09.go. Plugins are reported as INFO here and armed under C18.",
          "DESIGN.md section 4, C09"),
- "C12": ("static AST/type analysis: declaration-level vs write-level of every captured variable (STATE-LEVEL), who-may-call rule for Subscribe/Collect outside subscribe closures (LAZY-SOURCE), subscribe-site multiplicity, append aliasing at application time",
+ "C12": ("static AST/type analysis: declaration-level vs write-level of every captured variable (STATE-LEVEL), who-may-call rule for Subscribe/Collect outside subscribe closures (LAZY-SOURCE), stateful objects (mutex, Once, atomic, channel, map, subject) created at an outer level but used per subscription, subscribe-site multiplicity, append aliasing at application time",
          "Static discipline check over every operator of package ro (and, as INFO, the plugins): proves that no closure level that runs more often writes state declared at an outer level, that no source is touched at construction/application time and that each parameter source has one subscribe site per subscription. It decides the structural premise of re-subscribability for every operator on every run; it does not compare notification sequences.",
          "Trusted: go/types resolution, the level model (constructor / application literal / subscribe closure) extracted from the observable constructors, the one-symbol hot-construct exemption (ShareWithConfig). Not decided: state behind pointers in user arguments.",
          "DESIGN.md section 4, C12"),
@@ -129,7 +129,7 @@ def main():
         }],
         "checks": checks,
         "not_applicable": na,
-        "notes": "All claims are at level 'other' (static discipline checks). Known genuine defects are listed in KNOWN_FINDINGS.txt; fixed ones are 'fix:' commits in /repo.",
+        "notes": "All claims are at level 'other' (static discipline checks). Quick tier: the rules on the current tree plus injected positive controls. Thorough tier: the same plus a model-generated single-site mutation sweep (every generated, compilable breaking edit of the property's constructs must be reported on its own construct; mutants are analysed as overlays, never executed). Known genuine defects are listed in KNOWN_FINDINGS.txt; fixed ones are 'fix:' commits in /repo. Independently seeded breaking changes and which rule reports each are under seeded/.",
     }
     with open(os.path.join(ROOT, "MANIFEST.json"), "w") as f:
         json.dump(manifest, f, indent=1)
